@@ -46,7 +46,7 @@ func CheckImmutable(
 	for file := range filesToCheck {
 		// The enclosing function (constructor exemption) and its receiver are scoped to one
 		// function declaration: package-level initialisers are in no function at all.
-		ctx.currentFunction, ctx.currentReceiver = &noFunction, nil
+		ctx.currentFunction, ctx.currentReceiver, ctx.currentMethodOf = &noFunction, nil, ""
 		funcEnd := token.NoPos
 
 		// First pass: check simple assignments and inc/dec operations
@@ -54,6 +54,7 @@ func CheckImmutable(
 		ast.Inspect(file, func(n ast.Node) bool {
 			if n != nil && funcEnd.IsValid() && n.Pos() >= funcEnd {
 				ctx.currentFunction, ctx.currentReceiver, funcEnd = &noFunction, nil, token.NoPos
+				ctx.currentMethodOf = ""
 			}
 			switch node := n.(type) {
 			case *ast.FuncDecl:
@@ -62,6 +63,10 @@ func CheckImmutable(
 
 				// Track receiver information for methods
 				ctx.currentReceiver = extractReceiverInfo(ctx.pass, node)
+				ctx.currentMethodOf = ""
+				if node.Recv != nil && len(node.Recv.List) > 0 {
+					ctx.currentMethodOf = annotations.ExtractReceiverType(node.Recv.List[0].Type)
+				}
 				return true
 
 			case *ast.AssignStmt:
@@ -98,12 +103,17 @@ type checkerContext struct {
 	mutableFields   util.TypeAssociationRegistry
 	currentFunction *string
 	currentReceiver *receiverInfo
+	currentMethodOf string // receiver type name if the enclosing declaration is a method ("" otherwise or if unknown)
 }
 
 // inConstructor reports whether the walk is inside a constructor of the given type.
 // Only functions of the type's own package can be its constructors.
 func (ctx *checkerContext) inConstructor(pkgPath string, typeName string) bool {
 	if ctx.pass.Pkg == nil || ctx.pass.Pkg.Path() != pkgPath {
+		return false
+	}
+	// A method of another type that merely shares a constructor's name is not that constructor
+	if ctx.currentMethodOf != "" && ctx.currentMethodOf != typeName {
 		return false
 	}
 	return ctx.constructors.Match(pkgPath, *ctx.currentFunction, typeName)
